@@ -23,6 +23,9 @@ type C11Case struct {
 	Pre string `json:"pre,omitempty"`
 	// TLS: the same conversation over implicit TLS (real handshake): what a line means does not depend on it
 	TLS bool `json:"tls,omitempty"`
+	// BadVerb: Verb is NOT a spelling of "MAIL FROM:" / "RCPT TO:" (keyword missing, misspelled or the other
+	// command's): whatever follows, the line is malformed
+	BadVerb bool `json:"bad_verb,omitempty"`
 }
 
 // c11Predecessor returns the predecessor line, the number of backend calls of the judged kind it causes, and
@@ -140,6 +143,9 @@ func evalC11(c C11Case) (*h.Finding, ref.Class) {
 		cl, exp := ref.ClassifyRcpt(c.Arg, ext)
 		class, wantBox, wantOpts, why = cl, exp.Mailbox, exp.Opts(), exp.Why
 	}
+	if c.BadVerb {
+		class, why = ref.Invalid, "the line does not begin with "+map[string]string{"MAIL": "MAIL FROM:", "RCPT": "RCPT TO:"}[c.Cmd]
+	}
 	switch class {
 	case ref.Valid:
 		if reply.Code != 250 || len(calls) != 1 {
@@ -224,7 +230,7 @@ func C11(tier string) int {
 	if tier == "thorough" {
 		strLen, mutParams = 6, 2
 	}
-	run.Rule = fmt.Sprintf("(a) grammar-derived lines: %d path forms (null, plain, source-routed, quoted local part, quoted pairs, address literal, atext specials, UTF-8) x every subset of <=3 parameters with distinct keywords out of %d MAIL / %d RCPT parameter variants; (b) EVERY single-point mutation (delete, duplicate, replace by each of %q) of the lines with <=%d parameters; (c) ALL strings of <=%d characters over %q as the text after 'MAIL FROM:' and after 'RCPT TO:'; all x extension flags {all on, all off}; (d) every unmutated line of (a) once more as the line FOLLOWING a predecessor of the same command that sets every parameter and was {refused by the backend with 451, accepted (MAIL repeated inside the open transaction / a further RCPT), refused with 5xx for an unknown last parameter} - the judged line must reach the backend with its own values only; (e) every unmutated line of (a) over implicit TLS (real handshake): same verdict as in plaintext. Distinct by construction (enumeration; mutations may coincide, counted once per generating position); non-trivial = classified valid or definitely invalid by the independent reference grammar (ref/pathgrammar.go) - the 'unspecified' class is only checked for 'reply 250 <=> exactly one callback'. Oracle: valid => 250 and the backend receives exactly the mailbox and the decoded option values, every other field zero; invalid => 5xx and no callback.", len(c11Paths), len(c11MailParams), len(c11RcptParams), c11Mutators, mutParams, strLen, c11Alphabet)
+	run.Rule = fmt.Sprintf("(a) grammar-derived lines: %d path forms (null, plain, source-routed, quoted local part, quoted pairs, address literal, atext specials, UTF-8) x every subset of <=3 parameters with distinct keywords out of %d MAIL / %d RCPT parameter variants; (b) EVERY single-point mutation (delete, duplicate, replace by each of %q) of the lines with <=%d parameters; (c) ALL strings of <=%d characters over %q as the text after 'MAIL FROM:' and after 'RCPT TO:'; all x extension flags {all on, all off}; (d) every unmutated line of (a) once more as the line FOLLOWING a predecessor of the same command that sets every parameter and was {refused by the backend with 451, accepted (MAIL repeated inside the open transaction / a further RCPT), refused with 5xx for an unknown last parameter} - the judged line must reach the backend with its own values only; (e) every unmutated line of (a) over implicit TLS (real handshake): same verdict as in plaintext; (f) lines whose keyword in front of the path is missing, misspelled or the other command's ('MAIL FORM:', 'MAIL TO:', 'RCPT FROM:', 'RCPT TOO:' ...): refused, no callback. Distinct by construction (enumeration; mutations may coincide, counted once per generating position); non-trivial = classified valid or definitely invalid by the independent reference grammar (ref/pathgrammar.go) - the 'unspecified' class is only checked for 'reply 250 <=> exactly one callback'. Oracle: valid => 250 and the backend receives exactly the mailbox and the decoded option values, every other field zero; invalid => 5xx and no callback.", len(c11Paths), len(c11MailParams), len(c11RcptParams), c11Mutators, mutParams, strLen, c11Alphabet)
 	run.Assumptions = []string{"deliberately unspecified (not judged): missing angle brackets, space after the colon, irregular spacing, duplicate keywords, value on a flag parameter, domain syntax beyond non-empty, dot-strings with empty atoms, lower-case hex in xtext, unknown ORCPT address types, SIZE >= 2^32, non-ASCII addresses without SMTPUTF8", "a quoted local part may reach the backend quoted or de-quoted"}
 	var cases []C11Case
 	seen := map[string]bool{}
@@ -296,6 +302,19 @@ func C11(tier string) int {
 			c2 := cases[i]
 			c2.Pre = pre
 			cases = append(cases, c2)
+		}
+	}
+	// the keyword in front of the path missing, misspelled or that of the other command
+	for _, arg := range []string{"<ok@a.example>", "<ok@a.example> SIZE=1", "<>", "ok@a.example"} {
+		for _, v := range []string{"MAIL ", "MAIL FORM:", "MAIL TO:", "MAIL FROM", "MAIL FROM;", "MAIL XXXXX", "MAIL F:", "MAIL FROMM:", "MAIL :", "MAIL FRO:M"} {
+			for _, ext := range []bool{true, false} {
+				cases = append(cases, C11Case{Cmd: "MAIL", Arg: arg, Ext: ext, Verb: v, BadVerb: true})
+			}
+		}
+		for _, v := range []string{"RCPT ", "RCPT FROM:", "RCPT TO", "RCPT TOO:", "RCPT T:", "RCPT XX:", "RCPT :", "RCPT OT:"} {
+			for _, ext := range []bool{true, false} {
+				cases = append(cases, C11Case{Cmd: "RCPT", Arg: arg, Ext: ext, Verb: v, BadVerb: true})
+			}
 		}
 	}
 	// every unmutated grammar line once more over implicit TLS
